@@ -321,6 +321,27 @@ def main():
         pass
     if conn2.cursor().execute("select count(*) from c06_t").fetchall() != n0:
         report("describe() changed the data", {})
+    # ... and leaves the result set pending on the cursor alone, whether it succeeds or fails, tuple or dict cursor (fix b1fe93a)
+    for cls_kw in ({}, {"cursor_class": fsutil.dict_cursor_class()}):
+        cd_ = conn2.cursor(**({} if not cls_kw else {})) if not cls_kw else conn2.cursor(fsutil.dict_cursor_class())
+        cd_.execute("select id from c06_t order by id")
+        first = cd_.fetchone()
+        try:
+            dn = [x.name for x in cd_.describe("select id, name from c06_t")]
+        except Exception as e:  # noqa: BLE001
+            dn = f"{type(e).__name__}"
+        try:
+            cd_.describe("select * from c06_missing")
+            dn2 = "no error"
+        except Exception:  # noqa: BLE001
+            dn2 = "raised"
+        rest = cd_.fetchall()
+        want_rest = conn2.cursor().execute("select id from c06_t order by id").fetchall()[1:]
+        got_rest = [tuple(r.values()) if isinstance(r, dict) else tuple(r) for r in rest]
+        ck.cov["evaluations"] += 1
+        if dn != ["ID", "NAME"] or dn2 != "raised" or got_rest != want_rest or first is None:
+            report(f"execute; fetchone; describe(q2) -> {dn}; describe(<missing table>) -> {dn2}; fetchall -> {got_rest[:3]}... expected the remaining rows {want_rest[:3]}... "
+                   f"({'Dict' if cls_kw else 'tuple'} cursor): describe() must not touch the pending result set", {"dict_cursor": bool(cls_kw)})
     # data and session identical on the twin that never read description
     a = fs2.duck_conn.cursor().execute("select * from DB1.S1.C06_T order by all").fetchall()
     b = fs3.duck_conn.cursor().execute("select * from DB1.S1.C06_T order by all").fetchall()
@@ -349,6 +370,40 @@ def main():
         if not (names == keys == d2) or len(names) != len(row):
             report(f"after {step_sqls}: description of `{q}` names {names}, DictCursor keys {keys}, describe() {d2}, row width {len(row)}", {"statements": step_sqls + [q]})
     fs7.duck_conn.close()
+    # qmark connections: description after every kind of statement with bound parameters - queries whose root is not a plain SELECT included
+    import snowflake.connector
+
+    old_ps = snowflake.connector.paramstyle
+    try:
+        snowflake.connector.paramstyle = "qmark"
+        fs8, conn8 = setup_conn()
+    finally:
+        snowflake.connector.paramstyle = old_ps
+    c8 = conn8.cursor()
+    d8 = conn8.cursor(fsutil.dict_cursor_class())
+    qm = [("select ? as a, ? as b", (1, "x")), ("select ? as a union all select ?", (1, 2)), ("select id from c06_t where id = ? intersect select ?", (1, 1)),
+          ("select id from c06_t where id <= ? except select ?", (3, 2)), ("(select ? as x)", (5,)), ("select * from (values (?, ?)) v(p, q)", (1, "z")),
+          ("with w as (select ? as k) select k from w", (9,)), ("insert into c06_t (id) values (?)", (70,)), ("update c06_t set name = ? where id = ?", ("q", 70)),
+          ("delete from c06_t where id = ?", (70,))]
+    for sql, params in qm:
+        ck.cov["evaluations"] += 1
+        ck.count("qmark")
+        try:
+            c8.execute(sql, params)
+            d_before = [x.name for x in c8.description]
+            row = c8.fetchone()
+            d_mid = [x.name for x in c8.description]
+            c8.fetchall()
+            d_after = [x.name for x in c8.description]
+            keys = list(d8.execute(sql, params).fetchone().keys()) if not sql.startswith(("insert", "update", "delete")) else d_before
+        except Exception as e:  # noqa: BLE001
+            report(f"qmark connection: `{sql}` with parameters {params}: {type(e).__name__}: {str(e)[:140]} (description must be available after every successfully executed statement)",
+                   {"statement": sql, "params": list(params), "paramstyle": "qmark"})
+            continue
+        if not (d_before == d_mid == d_after == keys) or (row is not None and len(row) != len(d_before)):
+            report(f"qmark connection: `{sql}` with parameters {params}: description {d_before} / {d_mid} / {d_after}, DictCursor keys {keys}, row {row}",
+                   {"statement": sql, "params": list(params), "paramstyle": "qmark"})
+    fs8.duck_conn.close()
     # known findings: statements after which description is unavailable / wrong
     probes = [
         ("C06-description-unavailable", ["begin", "use schema s1", "truncate table c06_t"]),
